@@ -3,7 +3,7 @@
 # verdict tokens (printed by the driver's classifier, computed by the extracted Coq checkers) that
 # mean "the property's own clause fails on this input" for each property
 FAIL = {
-    'C02': ('shape', 'symbol'),
+    'C02': ('shape', 'symbol', 'sem', 'vars'),
     'C01': ('sem', 'no-result', 'symbol'),
     'C08': ('lex', 'grammar', 'accept'),
     'C09': ('vars', 'free', 'leak', 'symbol'),
@@ -48,8 +48,8 @@ TEXT_RULE = {
     'parse': 'exhaustive: every token sequence of length <=3 over the full 36-token alphabet and of length 4 (thorough: 5) over a 20-token reduced alphabet (thorough: length 4 over the full alphabet), rendered to text; plus seeded grammar-directed random formulas (all constructs, all spellings, random whitespace/comments), half of them with 1-3 token-level mutations (drop/insert/swap/replace)',
     'eval': 'the same exhaustive token sequences evaluated (result diagram, vars, free_vars); the counting-constant boundary grid; plus seeded random formulas <= depth 4 over <=6 names with shadowing, binder-only names, monotone-by-construction nested/mixed fixed points, counting over compound operands, constants up to 2^64-1, a third of them under an API ordering with sparse distinct ids incl. unused names',
     'evalq': 'language-level quantifiers: all 85 variable lists of length <=3 over four names (order, repetition, names absent from the body) x {exists, forall} x 9 bodies, each conjoined with its body; a third also bare, inside an lfp and a gfp, and under an API ordering with gaps',
-    'evalwide': 'sizes beyond the small spaces: conjunction, disjunction, xor chains, quantifier lists, a De Morgan equivalence, reversed first-appearance order and a 2n-deep nesting over n = 32, 33, 64, 65, 70, 129 variables (thorough up to 257); counting over lists of 8, 11, 14 operands; seeded random fixed-point-free formulas of depth 4 over 20 names',
-    'evalord': 'API orderings with gaps: 8 formulas x every injective assignment of ids 0..5 to every subset of <=3 of the names a,b,c,d (685 orderings), incl. formulas with up to five unlisted variables; result, vars, free_vars, names compared, and the answer is compared BY NAME with the default-order answer',
+    'evalwide': 'chains of 6..33 plain literals with a complementary or repeated literal at every distance, flat and bracketed, both connectives; sizes beyond the small spaces: conjunction, disjunction, xor chains, quantifier lists, a De Morgan equivalence, reversed first-appearance order and a 2n-deep nesting over n = 32, 33, 64, 65, 70, 129 variables (thorough up to 257); counting over lists of 8, 11, 14 operands; seeded random fixed-point-free formulas of depth 4 over 20 names',
+    'evalord': 'consecutive parses in one thread under four-name orderings that differ only in the middle or at one end; API orderings with gaps: 8 formulas x every injective assignment of ids 0..5 to every subset of <=3 of the names a,b,c,d (685 orderings), incl. formulas with up to five unlisted variables; result, vars, free_vars, names compared, and the answer is compared BY NAME with the default-order answer',
     'evalshadow': 'systematic shadowing: 7 outer binders (exists/forall/lfp/gfp on a, two-name lists, none) x 6 inner binders on the same name x 8 layouts (inner scope closed by a bracket, a list comma or an if-branch, with uses of the name before, after and outside; triple nesting; binders on absent and binder-only names), default order and an API ordering',
     'sym': 'the NamedSymbol contract the model rests on, all 2304 pairs over 12 ids (0, 1, 2, 7, ids that coincide with 3 or 7 after truncation to 8 / 16 / 32 bits, 2^32, 2^63+2, 2^64-2, 2^64-1) x names {a, b, empty, non-ASCII}: == and cmp / partial_cmp decided by the id alone, equal symbols hash alike (std hasher and the FxHash of a node), nodes over equal symbols are equal, into usize is the id, Display is the name',
     'evalx': 'two separately parsed formulas (two environments) combined by and / or / eq / xor / implies / ite of either environment: 12 fixed pairs and seeded random pairs - the same structure under two spellings of the same ids (p,q,x / req,ack,busy / x,p,q) or unrelated formulas over overlapping ids; seven result diagrams compared',
@@ -113,7 +113,7 @@ def dbg(spec):
 
 
 PROPS = {
-    'C02': dict(suites=[bdd(['conn', 'quant', 'count', 'fp', 'model', 'retain', 'clean', 'mixed', 'wide']), text(['sym', 'evalx', 'evalid'], exhaustive=False)]),
+    'C02': dict(suites=[bdd(['conn', 'quant', 'count', 'fp', 'model', 'retain', 'clean', 'mixed', 'wide']), text(['sym', 'evalx', 'evalid', 'evalwide', 'evalord'], exhaustive=False)]),
     'C01': dict(suites=[text(['tok', 'parse', 'eval', 'evalfp', 'evalwide', 'evalq', 'evalshadow', 'evallong', 'sym', 'evalid', 'evalcoll'])]),
     'C08': dict(suites=[text(['tok', 'parse', 'evallong', 'evalcoll'])]),
     'C09': dict(suites=[text(['eval', 'evalwide', 'evalshadow', 'sym', 'evalcoll'])]),
